@@ -618,6 +618,13 @@ static Type *func_params(Token **rest, Token *tok, Type *ty) {
 
     Token *name = ty2->name;
 
+    // "(void)" spelled with a typedef name of void
+    if (ty2->kind == TY_VOID && !name && cur == &head && equal(tok, ")")) {
+      leave_scope();
+      *rest = tok->next;
+      return func_type(ty);
+    }
+
     if (ty2->kind == TY_ARRAY || ty2->kind == TY_VLA) {
       // "array of T" is converted to "pointer to T" only in the parameter
       // context. For example, *argv[] is converted to **argv by this.
